@@ -60,6 +60,11 @@ static volatile long g_counts[E_N];
 static volatile long g_late_spins;      /* usleep(10) whose need_copy had already been cleared */
 static volatile long g_foreign_ser;     /* save_to_stream on the integrator thread (ignored) */
 
+static volatile long g_double_close;    /* close(fd) right after fclose() of the stream on that fd, same thread (server.c:454-455) */
+static int (*real_fclose)(FILE*);
+static int (*real_close)(int);
+static __thread int t_last_fclosed = -1;
+
 static unsigned g_prob = 0, g_maxus = 0; /* delay injection: probability per 1000, max microseconds */
 static uint64_t g_seed = 1;
 
@@ -160,6 +165,22 @@ int usleep(useconds_t us) {
     return real_usleep(us);
 }
 
+/* fclose(stream) already closes the descriptor; a following close(fd) of the same number by the same thread closes
+ * whatever another thread has opened in between.  Only counted here, nothing is changed. */
+int fclose(FILE* f) {
+    if (!real_fclose) real_fclose = dlsym(RTLD_NEXT, "fclose");
+    int fd = f ? fileno(f) : -1;
+    int rc = real_fclose(f);
+    t_last_fclosed = fd;
+    return rc;
+}
+int close(int fd) {
+    if (!real_close) real_close = dlsym(RTLD_NEXT, "close");
+    if (fd >= 0 && fd == t_last_fclosed) { __atomic_fetch_add(&g_double_close, 1, __ATOMIC_RELAXED); }
+    t_last_fclosed = -1;
+    return real_close(fd);
+}
+
 /* ------------------------------------------------------------------ interposed: librebound */
 int reb_check_exit(void* r, double tmax, double* last_full_dt) {
     resolve_lib();
@@ -224,7 +245,7 @@ void c19_mark(int code) {
 }
 void c19_stop(void) { g_active = 0; }
 void c19_reset(void) { loglock(); g_n = 0; memset((void*)g_counts, 0, sizeof(g_counts)); g_late_spins = 0; g_foreign_ser = 0; logunlock(); }
-long c19_count(int code) { return code >= 0 && code < E_N ? g_counts[code] : (code == -1 ? g_late_spins : g_foreign_ser); }
+long c19_count(int code) { return code >= 0 && code < E_N ? g_counts[code] : (code == -1 ? g_late_spins : (code == -2 ? g_foreign_ser : g_double_close)); }
 long c19_len(void) { return (long)g_n; }
 int c19_dump(const char* path) {
     FILE* f = fopen(path, "w");
